@@ -1,43 +1,5 @@
 From AG Require Import Base.Prelude Base.Res Base.Bytes Base.Mask Codec.Adc.
 
-Definition nthN (l : list N) (i : N) : N := nth (N.to_nat i) l 0.
-
-Lemma idx_nthN l i : i < lenN l -> idx l i = Ok (nthN l i).
-Proof.
-  intros H. unfold idx, nthN. destruct (nth_error l (N.to_nat i)) eqn:E.
-  - f_equal. symmetry. apply nth_error_nth. assumption.
-  - apply nth_error_None in E. unfold lenN in H. lia.
-Qed.
-Lemma nthN_byte l i : bytes l -> nthN l i < 256.
-Proof.
-  intros Hb. unfold nthN. destruct (Nat.lt_ge_cases (N.to_nat i) (length l)).
-  - unfold bytes in Hb. rewrite Forall_forall in Hb. apply Hb. apply nth_In. assumption.
-  - rewrite nth_overflow by assumption. lia.
-Qed.
-Lemma nthN_subN l i : i < lenN l -> subN l i 1 = [nthN l i].
-Proof.
-  intros H. assert (Hk : (N.to_nat i < length l)%nat) by (unfold lenN in H; lia). clear H.
-  unfold subN, takeN, dropN, nthN.
-  change (N.to_nat 1) with 1%nat.
-  revert l Hk. generalize (N.to_nat i) as k.
-  induction k as [|k IH]; intros [|x l] Hk; cbn [length] in Hk; try lia.
-  - reflexivity.
-  - cbn [skipn nth]. apply IH. lia.
-Qed.
-
-Lemma rd_be_eq l a n : a + n <= lenN l -> rd_be l a n = Ok (be_val (subN l a n)).
-Proof.
-  intros H. unfold rd_be. rewrite slice_ok by lia. cbn [bind].
-  replace (a + n - a) with n by lia.
-  rewrite arr_ok by (apply subN_length; lia). reflexivity.
-Qed.
-Lemma slice_arr_eq {A} (l : list A) a b n : b = a + n -> b <= lenN l ->
-  (do s <- slice l a b; arr n s) = Ok (subN l a n).
-Proof.
-  intros -> H. rewrite slice_ok by lia. cbn [bind]. replace (a + n - a) with n by lia.
-  apply arr_ok. apply subN_length. lia.
-Qed.
-
 (* ---- chunks2_be ---- *)
 Lemma chunks2_be_length s : (length (chunks2_be s) = length s / 2)%nat.
 Proof.
@@ -202,31 +164,7 @@ Lemma m1b x : N.land x 1 = x mod 2.
 Proof. replace 1 with (2^1 - 2^0) at 1 by reflexivity. rewrite land_run by lia.
   change (2^0) with 1. rewrite N.div_1_r, N.mul_1_r. reflexivity. Qed.
 
-Lemma usub_ok m w a b : b <= a -> usub m w a b = Ok (a - b).
-Proof. intros H. unfold usub. destruct (N.leb_spec b a); [reflexivity|lia]. Qed.
-Lemma umul_ok m w a b : a * b < 2 ^ w -> umul m w a b = Ok (a * b).
-Proof. intros H. unfold umul. destruct (N.ltb_spec (a * b) (2 ^ w)); [reflexivity|lia]. Qed.
 
-Lemma slice_from_to_arr {A} (l : list A) a n : a + n <= lenN l ->
-  (do s <- slice_from l a; do s2 <- slice_to s n; arr n s2) = Ok (subN l a n).
-Proof.
-  intros H. rewrite slice_from_ok by lia. cbn [bind].
-  rewrite slice_to_ok by (rewrite dropN_length; lia). cbn [bind].
-  apply arr_ok. apply subN_length. assumption.
-Qed.
-Lemma slice_from_arr {A} (l : list A) a n : a + n = lenN l ->
-  (do s <- slice_from l a; arr n s) = Ok (subN l a n).
-Proof.
-  intros H. rewrite slice_from_ok by lia. cbn [bind].
-  rewrite dropN_subN. replace (lenN l - a) with n by lia.
-  apply arr_ok. apply subN_length. lia.
-Qed.
-Lemma slice_from_to {A} (l : list A) a n : a + n <= lenN l ->
-  (do s <- slice_from l a; slice_to s n) = Ok (subN l a n).
-Proof.
-  intros H. rewrite slice_from_ok by lia. cbn [bind].
-  rewrite slice_to_ok by (rewrite dropN_length; lia). reflexivity.
-Qed.
 
 Theorem adc_decode_pure macs m l : bytes l -> adc_decode macs m l = adc_pure macs l.
 Proof.
@@ -324,8 +262,6 @@ Proof.
 Qed.
 
 (* ---------- exactness ---------- *)
-Lemma subN_join' {A} (l : list A) a n b m : b = a + n -> subN l a n ++ subN l b m = subN l a (n + m).
-Proof. intros ->. symmetry. apply subN_split. Qed.
 
 Lemma split_short (l : list N) : lenN l = 16 ->
   l = subN l 0 1 ++ subN l 1 1 ++ subN l 2 2 ++ subN l 4 1 ++ subN l 5 1 ++ subN l 6 2 ++ subN l 8 4 ++
@@ -341,15 +277,6 @@ Proof.
   intros L. repeat rewrite subN_join' by lia. symmetry. apply subN_all. lia.
 Qed.
 
-Lemma be_val_app a b : be_val (a ++ b) = be_val a * 256 ^ lenN b + be_val b.
-Proof.
-  unfold be_val. rewrite rev_app_distr.
-  replace (lenN b) with (lenN (rev b)) by (unfold lenN; rewrite rev_length; reflexivity).
-  generalize (rev a) as x. generalize (rev b) as y. clear.
-  induction y as [|c y IH]; intros x; cbn [app le_val].
-  - rewrite lenN_nil. change (256^0) with 1. lia.
-  - rewrite IH, lenN_cons. rewrite N.add_1_r, N.pow_succ_r'. lia.
-Qed.
 
 Lemma list_eqb_eq a b : list_eqb a b = true -> a = b.
 Proof.
@@ -359,16 +286,6 @@ Qed.
 Lemma list_eqb_refl a : list_eqb a a = true.
 Proof. induction a as [|x a IH]; cbn [list_eqb]; [reflexivity|]. rewrite N.eqb_refl. assumption. Qed.
 
-Lemma be_subN_enc l a n k : bytes l -> a + n <= lenN l -> k = N.to_nat n ->
-  be_enc k (be_val (subN l a n)) = subN l a n.
-Proof.
-  intros Hb H ->. apply be_enc_val'; [apply bytes_subN; assumption|].
-  pose proof (subN_length l a n H) as L. unfold lenN in L. lia.
-Qed.
-Lemma be_subN_bound l a n : bytes l -> a + n <= lenN l -> be_val (subN l a n) < 256 ^ n.
-Proof.
-  intros Hb H. rewrite <- (subN_length l a n H) at 2. apply be_val_bound, bytes_subN. assumption.
-Qed.
 
 Lemma ladder_spec supp kb kl req n : ladder supp kb kl req n = true ->
   if supp then kb = true /\ 34 <= kl /\ (last_index kl < n)%Z /\ (n <= Z.of_N req - 2)%Z
@@ -487,15 +404,7 @@ Lemma enc_wave_lenN w : lenN (enc_wave w) = 2 * lenN w.
 Proof. unfold lenN. rewrite enc_wave_length. lia. Qed.
 Global Hint Rewrite enc_wave_lenN : len.
 
-Lemma len6 (mac : list N) : length mac = 6%nat -> exists a b c d e g, mac = [a; b; c; d; e; g].
-Proof.
-  intros H. destruct mac as [|a [|b [|c [|d [|e [|g [|x t]]]]]]]; try discriminate. do 6 eexists. reflexivity.
-Qed.
 
-Lemma subN_tail2 {A} (p m s : list A) a n : a = lenN p -> n = lenN m -> subN (p ++ m ++ s) a n = m.
-Proof. intros -> ->. apply subN_mid; reflexivity. Qed.
-Lemma subN_tail1 {A} (p m : list A) a n : a = lenN p -> n = lenN m -> subN (p ++ m) a n = m.
-Proof. intros -> ->. rewrite <- (app_nil_r m) at 1. apply subN_mid; reflexivity. Qed.
 
 Lemma to_signed16_of z : i16_ok z -> to_signed 16 (of_signed 16 z) = z.
 Proof. intros H. apply to_of_signed; [lia|]. change (2^(16-1)) with 32768. unfold i16_ok in H. lia. Qed.
